@@ -367,6 +367,8 @@ def validate_events(name, module, trace_path, constants=None, chunk=20000, worke
                 m = re.match(r'<<"REJECT", (\d+), "(.*)">>', line)
                 if m:
                     rejects.append((json.loads(part[int(m.group(1)) - 1]), m.group(2)))
+                elif line.startswith('<<"SKIP"'):
+                    res["skipped"] = res.get("skipped", 0) + 1        # events outside the specification's domain
         os.remove(res["out"])
         os.remove(pth)
         results.append(res)
